@@ -57,6 +57,11 @@ def gen_query(rng, V, facts, extra=None):
         return " ".join(rng.choice(facts)["tokens"])
     if r < 0.76:
         return "%s * %s" % (" ".join(rng.choice(facts)["tokens"]), quantity())
+    if r < 0.79 and r >= 0.76 and getattr(V, "pluralisable", None):
+        # consecutive results in the SAME unit, pluralisable and with a denominator or a power, values one and not one
+        u = rng.choice(V.pluralisable)
+        shape = rng.choice(["%s/min", "%s/s", "%s^2", "%s", "%s/m^2", "%s*s^-1", "%s^3/s"]) % u
+        return " ".join("(%s %s)" % (rng.choice(["1", "3", "1", "0.5", "2", "1.0", "(2 - 1)", "1 / 0"]), shape) for _ in range(rng.randint(2, 5)))
     if r < 0.8:
         # several results: juxtaposed parenthesised expressions, some failing
         parts = []
